@@ -5,7 +5,7 @@ import ast
 from typing import Dict, List, Optional, Set
 
 from .. import vgc as vgc_mod
-from ..core import AnalysisError, call_name, calls_in, is_self_attr, walk_local
+from ..core import AnalysisError, call_name, calls_in, is_self_attr, param_names, walk_local
 from ..grammar import BINDS, CONDITIONAL, G, GENERATOR, LOOPS, SCOPES, TARGET_FIELDS
 
 EXPLANATION = (
@@ -228,6 +228,93 @@ def check(ctx, res) -> None:
             "regions with async statements are refused or emitted into an `async def`" if ok else
             "extract accepts a region containing `async for` / `async with` (the refusal is limited to interpreters without top-level await) but the "
             "new function's header is always a plain `def`: the rewritten module does not compile (SyntaxError: 'async for' outside async function)")
+
+    # ---- R03.9 the names a region MAY write: the collector's write primitive files an in-region write under one of several
+    # sets depending on `self.conditional`; every computation that decides what is passed back (returns) or re-declared
+    # (global / nonlocal) must take the union of all of them -- leaving one out silently drops conditional writes.
+    wv = idx.need_func(f"{COLLECTOR}._written_variable")
+    wcfg = _CFG(wv.node)
+    pname = param_names(wv.node)[1] if len(param_names(wv.node)) > 1 else None
+    region_sets: Set[str] = set()
+    for n in wcfg.nodes:
+        if n.kind != "stmt" or n.ast is None:
+            continue
+        for c in calls_in(n.ast):
+            if isinstance(c.func, ast.Attribute) and c.func.attr == "add" and is_self_attr(c.func.value) and c.args \
+                    and isinstance(c.args[0], ast.Name) and c.args[0].id == pname:
+                gs = wcfg.guards(n.id)
+                in_region = [t for t, pol in gs if pol and isinstance(t, ast.Compare) and
+                             {x.attr for x in ast.walk(t) if is_self_attr(x)} >= {"start", "end"}]
+                others = [t for t, pol in gs if t not in in_region]
+                if in_region and all(is_self_attr(t, "conditional") or (isinstance(t, ast.UnaryOp) and is_self_attr(t.operand, "conditional"))
+                                     for t in others):
+                    region_sets.add(c.func.value.attr)
+    if len(region_sets) < 2:
+        raise AnalysisError(f"anchor=_written_variable: in-region write sets not recognised ({sorted(region_sets)})")
+    res.analysed["R03.9_write_sets"] = sorted(region_sets)
+
+    def contributions(fn: ast.AST, e: ast.AST, depth: int = 0) -> Set[str]:
+        """which in-region write sets can contribute names to the value of set expression e"""
+        if depth > 6:
+            return set()
+        if isinstance(e, ast.Attribute) and e.attr in region_sets and isinstance(e.value, ast.Attribute) and e.value.attr == "info_collector":
+            return {e.attr}
+        if isinstance(e, ast.BinOp) and isinstance(e.op, (ast.BitOr, ast.BitAnd)):
+            return contributions(fn, e.left, depth + 1) | contributions(fn, e.right, depth + 1)
+        if isinstance(e, ast.BinOp) and isinstance(e.op, ast.Sub):
+            return contributions(fn, e.left, depth + 1)
+        if isinstance(e, ast.Call) and isinstance(e.func, ast.Attribute) and e.func.attr in ("union", "intersection", "difference"):
+            out = contributions(fn, e.func.value, depth + 1)
+            if e.func.attr != "difference":
+                for a in e.args:
+                    out |= contributions(fn, a, depth + 1)
+            return out
+        if isinstance(e, ast.Call) and e.args and call_name(e) in ("list", "set", "sorted", "tuple", "OrderedSet", "frozenset"):
+            return contributions(fn, e.args[0], depth + 1)
+        if isinstance(e, ast.Name):
+            out: Set[str] = set()
+            for x in walk_local(fn):
+                if isinstance(x, ast.Assign) and any(isinstance(t, ast.Name) and t.id == e.id for t in x.targets) and x.value is not e:
+                    out |= contributions(fn, x.value, depth + 1)
+                if isinstance(x, ast.AugAssign) and isinstance(x.target, ast.Name) and x.target.id == e.id:
+                    out |= contributions(fn, x.value, depth + 1)
+            return out
+        return set()
+
+    deciders = []
+    for mname, m in sorted(parts.methods.items()):
+        reads = {x.attr for x in ast.walk(m.node) if isinstance(x, ast.Attribute) and isinstance(x.value, ast.Attribute)
+                 and x.value.attr == "info_collector"}
+        if reads & {"globals_", "nonlocals_"} or mname == "_find_function_returns":
+            deciders.append((mname, m))
+    n9 = 0
+    for mname, m in deciders:
+        outs = []
+        for x in walk_local(m.node):
+            if isinstance(x, ast.Return) and x.value is not None:
+                outs.append(x.value)
+            if isinstance(x, ast.Assign):
+                outs.append(x.value)
+        worst, n_e = None, 0
+        for e in outs:
+            got = contributions(m.node, e)
+            if not got:
+                continue
+            n_e += 1
+            if region_sets - got and worst is None:
+                worst = (e, got)
+        if not n_e:
+            continue
+        n9 += 1
+        if worst:
+            e, got = worst
+            missing = region_sets - got
+        res.add("R03.9", f"_ExtractMethodParts.{mname}|may-write", worst is None, f"{m.unit.rel}:{(worst[0] if worst else m.node).lineno}",
+                f"{n_e} set expression(s) take the union of all in-region write sets {sorted(region_sets)}" if worst is None else
+                f"{mname} decides which written names are passed back / re-declared from {sorted(got)} only, leaving out {sorted(missing)}: a name the "
+                "region assigns only conditionally (under if/for/while/try) is not returned or not declared global/nonlocal in the new function, "
+                "so the write is lost or raises UnboundLocalError", function=m.qualname)
+    res.floor("R03.9", "write-set computations in returns/global/nonlocal deciders", n9, 3)
 
     # ---- R03.6 suite walker
     idx.need_class(SUITES)
